@@ -5,7 +5,7 @@ every completion order of the per-file read tasks of each level (imap_unordered 
 the chosen order), in-process and fork-per-task."""
 import os, random, itertools, shutil
 import numpy as np
-from .. import common, gen, refparse, workload, pools, contracts
+from .. import common, gen, refparse, workload, pools, contracts, endurance
 
 ID = "C10"
 LEVEL = "exploration"
@@ -17,7 +17,7 @@ RULE = ("cases = generated 3D plotfiles (any layout, 1-3 levels) x field x dtype
         "and >=2 files on some level under a non-identity completion order")
 ASSUMPTIONS = ["tasks atomic per binary file; the parent applies results in delivery order",
                "generator trusted"]
-REQUIRED_OBS = {"real_pool_runs": 3, "runs": 50, "schedules_nonidentity": 10, "limited": 10, "float32": 20}
+REQUIRED_OBS = {"endurance_calls": 100, "real_pool_runs": 3, "runs": 50, "schedules_nonidentity": 10, "limited": 10, "float32": 20}
 TIMEOUT = {"quick": 600, "thorough": 3000}
 
 
@@ -47,7 +47,8 @@ def cases(tier, seed):
         [(w, st) for st in ("fork", "spawn", "forkserver") for w in (1, 2, 5)]
     for k in range(1 if tier == "quick" else 4):
         cs.append({"kind": "real_pools", "seed": seed * 100 + 31 + k, "combos": combos})
-    return cs
+    # M10: the same operation repeated in one process under a low open-file limit (vlib/endurance.py)
+    return cs + [endurance.case("whip", tier, seed)]
 
 
 def setup():
@@ -91,6 +92,8 @@ def run_real_pools(case, work, rec):
 
 
 def run_case(case, work, rec):
+    if case.get("kind") == "endurance":
+        return endurance.run_case(case, work, rec)
     if case.get("kind") == "real_pools":
         return run_real_pools(case, work, rec)
     cli = common.repo_module("amr_kitchen.whip.cli")
